@@ -349,3 +349,139 @@ Proof.
   - rewrite Hnext. do 2 f_equal. lia.
   - do 2 f_equal; lia.
 Qed.
+
+(** * Select32R64: the rank-index advance *)
+Lemma Select32R64_advance_eq fuel ridx wordI i :
+  Select32R64_advance fuel ridx wordI i =
+  match nthZ ridx (wordI + 1) with
+  | None => None
+  | Some r => if r <=? i then
+                match fuel with
+                | O => None
+                | S f => Select32R64_advance f ridx (wordI + 1) i
+                end
+              else Some wordI
+  end.
+Proof. destruct fuel; reflexivity. Qed.
+
+Lemma spec_index64_nth_tr ws k : (k <= length ws)%nat ->
+  nth_error (spec_IndexRank64 ws true) k = Some (rank1 (flat ws) (64 * k)).
+Proof.
+  intros Hk. destruct (Nat.eq_dec k (length ws)) as [->|Hne].
+  - unfold spec_IndexRank64. rewrite nth_error_app2 by (rewrite map_length, seq_length; lia).
+    rewrite map_length, seq_length, Nat.sub_diag. reflexivity.
+  - apply spec_index64_nth. lia.
+Qed.
+
+Lemma rank1_mono l a b : (a <= b)%nat -> rank1 l a <= rank1 l b.
+Proof.
+  intros H. unfold rank1. replace (firstn a l) with (firstn a (firstn b l)).
+  - apply count_true_firstn_le.
+  - rewrite firstn_firstn. f_equal. lia.
+Qed.
+
+Lemma rank1_words_succ ws k w : words_ok ws -> nth_error ws k = Some w ->
+  rank1 (flat ws) (64 * S k) = rank1 (flat ws) (64 * k) + popcount w.
+Proof.
+  intros Hok Hw. replace (64 * S k)%nat with (64 * k + 64)%nat by lia.
+  rewrite (rank1_flat ws k w 64 Hw) by lia.
+  rewrite (firstn_all2 (n:=64)) by (rewrite bits_length; lia).
+  rewrite <- popcount_bits64 by (eapply words_ok_nth; eauto). reflexivity.
+Qed.
+
+Lemma rank1_words_all ws : rank1 (flat ws) (64 * length ws) = zlen (all_ones ws).
+Proof. rewrite zlen_all_ones, rank1_flat_words, firstn_all. reflexivity. Qed.
+
+Lemma advance_spec ws (i : Z) : words_ok ws -> i < zlen (all_ones ws) ->
+  forall fuel k, (k < length ws)%nat -> (length ws <= k + 1 + fuel)%nat ->
+  rank1 (flat ws) (64 * k) <= i ->
+  exists k', Select32R64_advance fuel (spec_IndexRank64 ws true) (Z.of_nat k) i = Some (Z.of_nat k') /\
+    (k' < length ws)%nat /\ rank1 (flat ws) (64 * k') <= i < rank1 (flat ws) (64 * S k').
+Proof.
+  intros Hok Hi. induction fuel as [|fuel IH]; intros k Hk Hfuel Hr.
+  all: rewrite Select32R64_advance_eq.
+  all: replace (Z.of_nat k + 1) with (Z.of_nat (S k)) by lia.
+  all: rewrite nthZ_of_nat, spec_index64_nth_tr by lia.
+  all: destruct (Z.leb_spec (rank1 (flat ws) (64 * S k)) i) as [Hle|Hgt];
+    [|exists k; repeat split; (assumption || lia)].
+  all: assert (HSk : (S k < length ws)%nat)
+    by (destruct (Nat.eq_dec (S k) (length ws)) as [E|]; [rewrite E, rank1_words_all in Hle; lia|lia]).
+  - lia.
+  - apply IH; (lia || assumption).
+Qed.
+
+(** the state at the start of word [k] when the [i]-th 1 is not before it *)
+Lemma rank_state ws (i : Z) k w : words_ok ws -> nth_error ws k = Some w ->
+  rank1 (flat ws) (64 * k) <= i ->
+  sel_state ws (Z.to_nat i) k w (Z.to_nat (i - rank1 (flat ws) (64 * k))).
+Proof.
+  intros Hok Hw Hr. pose proof (words_ok_nth _ _ _ Hok Hw) as Hwr.
+  assert (Hlen : Z.of_nat (length (ones_from 0 (flat (firstn k ws)))) = rank1 (flat ws) (64 * k)).
+  { rewrite ones_from_length, rank1_flat_words. reflexivity. }
+  set (r := rank1 (flat ws) (64 * k)) in *.
+  repeat split; try lia.
+  - apply nth_error_Some. congruence.
+  - intros j. unfold all_ones, ones. rewrite (flat_split k ws w Hw), ones_from_app.
+    assert (Hk : length (flat (firstn k ws)) = (64 * k)%nat).
+    { rewrite flat_length, firstn_length_le; [reflexivity|].
+      apply Nat.lt_le_incl. apply nth_error_Some. congruence. }
+    rewrite Hk.
+    rewrite nth_error_app2 by lia. unfold rest_ones.
+    replace (0 + Z.of_nat (64 * k)) with (64 * Z.of_nat k) by lia.
+    f_equal. lia.
+Qed.
+
+Theorem Select32R64_exact ws i : words_ok ws -> 0 <= i < zlen (all_ones ws) ->
+  Select32R64 ws (spec_IndexSelect32 ws) (spec_IndexRank64 ws true) i = Some (spec_Select ws i).
+Proof.
+  intros Hok Hi. pose proof Hi as Hi'. unfold zlen in Hi.
+  set (n := length (all_ones ws)) in *.
+  unfold Select32R64.
+  rewrite Z.shiftr_div_pow2 by lia. change (2 ^ 5) with 32.
+  set (c := Z.to_nat (i / 32)).
+  replace (i / 32) with (Z.of_nat c) by (subst c; lia).
+  rewrite nthZ_of_nat, spec_IndexSelect32_nth by (fold n; subst c; lia).
+  set (p := nth (32 * c) (all_ones ws) 0).
+  assert (Hp : nth_error (all_ones ws) (32 * c) = Some p)
+    by (apply nth_error_nth_Some; fold n; subst c; lia).
+  destruct (all_ones_nth ws _ p Hp) as (Hp0 & Hplt & Hrank & _ & _).
+  destruct (pos_split p Hp0) as (E1 & _ & E3 & Hq & Hk0). rewrite E1.
+  set (k := Z.to_nat (p / 64)).
+  assert (Hk : (k < length ws)%nat) by (subst k; lia).
+  assert (Hr0 : rank1 (flat ws) (64 * k) <= i).
+  { transitivity (rank1 (flat ws) (Z.to_nat p)); [|rewrite Hrank; subst c; lia].
+    apply rank1_mono. subst k; lia. }
+  replace (p / 64) with (Z.of_nat k) by (subst k; lia).
+  destruct (advance_spec ws i Hok ltac:(lia) (length ws) k Hk ltac:(lia) Hr0) as (k' & Hadv & Hk' & Hr').
+  rewrite Hadv.
+  destruct (nth_error_exists ws k' Hk') as [w Hw].
+  rewrite !nthZ_of_nat, Hw, spec_index64_nth_tr by lia.
+  cbv beta iota zeta.
+  pose proof (rank_state ws i k' w Hok Hw ltac:(lia)) as Hst.
+  assert (Hf : Z.of_nat (Z.to_nat (i - rank1 (flat ws) (64 * k'))) < popcount w).
+  { rewrite (rank1_words_succ ws k' w Hok Hw) in Hr'. lia. }
+  set (f := Z.to_nat (i - rank1 (flat ws) (64 * k'))) in *.
+  replace (i - rank1 (flat ws) (64 * k')) with (Z.of_nat f) by (subst f; lia).
+  destruct (sel_in_word ws _ k' w f Hst Hf) as (off & Hsiw & Hoff & Hnth & Ha).
+  rewrite Hsiw, shiftl_6.
+  assert (Ea63 : Z.land (off + 64 * Z.of_nat k') 63 = off).
+  { change 63 with (Z.ones 6). rewrite Z.land_ones by lia. change (2 ^ 6) with 64. lia. }
+  rewrite Ea63, RMaskUpto_not64, clear_below_eq.
+  pose proof (sel_next ws _ k' w f off Hok Hst Hnth) as Hnext. cbv zeta in Hnext.
+  assert (Espec : spec_Select ws i = (64 * Z.of_nat k' + off, next_spec ws (Z.to_nat i))).
+  { unfold spec_Select, next_spec. cbv zeta. f_equal.
+    - now apply nth_error_nth.
+    - rewrite Z2Nat.id by lia. replace (Z.to_nat (i + 1)) with (S (Z.to_nat i)) by lia. reflexivity. }
+  rewrite Espec.
+  destruct (clear_below (off + 1) w =? 0); cbn [negb].
+  - rewrite Hnext. do 2 f_equal. lia.
+  - do 2 f_equal; lia.
+Qed.
+
+Theorem IndexSelect32R64_exact ws : words_ok ws ->
+  IndexSelect32R64 ws = Some (spec_IndexSelect32R64 ws).
+Proof.
+  intros Hok. unfold IndexSelect32R64, spec_IndexSelect32R64.
+  pose proof (IndexSelect32_exact ws) as H. unfold IndexSelect32 in H. rewrite H.
+  now rewrite IndexRank64_exact.
+Qed.
